@@ -165,33 +165,55 @@ double complex _vnacal_rfi(const double *xp, double complex *yp,
 	}
 	offset = 2.0 * max_magnitude;
     }
-    for (int i = 0; i < m; ++i) {
-	c[i] = yp[base + i] + offset;
-	d[i] = yp[base + i] + offset + EPS;
-    }
-    y = yp[base + cur--];
-    for (int i = 0; i < m - 1; ++i) {
-	int j;
+    /*
+     * One of the lower-order rational functions of the tableau may
+     * have a pole exactly at x although the result has none (for
+     * values proportional to x: wherever x is the sum of two of the
+     * xp).  The corrections can't be continued through it.  Moving
+     * the values by a constant moves the poles of the intermediate
+     * functions and, as above, drops out of the result: try again
+     * with another offset, a few times at most.
+     */
+    for (int attempt = 0, start = cur;; ++attempt) {
+	bool pole = false;
 
-	for (j = 0; j < m - i - 1; ++j) {
-	    double complex c_d = c[j + 1] - d[j];
-	    double complex dx1 = x - xp[base + j];
-	    double complex dx2 = x - xp[base + i + j + 1];
-	    double complex den = dx1 * d[j] - dx2 * c[j + 1];
+	for (int i = 0; i < m; ++i) {
+	    c[i] = yp[base + i] + offset;
+	    d[i] = yp[base + i] + offset + EPS;
+	}
+	cur = start;
+	y = yp[base + cur--];
+	for (int i = 0; i < m - 1 && !pole; ++i) {
+	    int j;
 
-	    if (cabs(den) < 10.0 * EPS) {
-		goto done;
+	    for (j = 0; j < m - i - 1; ++j) {
+		double complex c_d = c[j + 1] - d[j];
+		double complex dx1 = x - xp[base + j];
+		double complex dx2 = x - xp[base + i + j + 1];
+		double complex den = dx1 * d[j] - dx2 * c[j + 1];
+
+		if (cabs(den) < 10.0 * EPS) {
+		    pole = true;
+		    break;
+		}
+		c[j] = c_d * dx1 * d[j]     / den;
+		d[j] = c_d * dx2 * c[j + 1] / den;
 	    }
-	    c[j] = c_d * dx1 * d[j]     / den;
-	    d[j] = c_d * dx2 * c[j + 1] / den;
+	    if (pole) {
+		break;
+	    }
+	    if (2 * (cur + 1) < m - i) {
+		assert(cur + 1 >= 0 && cur + 1 < m - i);
+		y += c[cur + 1];
+	    } else {
+		assert(cur >= 0 && cur < m - i);
+		y += d[cur--];
+	    }
 	}
-	if (2 * (cur + 1) < m - i) {
-	    assert(cur + 1 >= 0 && cur + 1 < m - i);
-	    y += c[cur + 1];
-	} else {
-	    assert(cur >= 0 && cur < m - i);
-	    y += d[cur--];
+	if (!pole || attempt >= 3 || max_magnitude == 0.0) {
+	    break;
 	}
+	offset += 2.0 * max_magnitude;
     }
 done:
     *ip_segment = segment;
